@@ -2,22 +2,28 @@
 (* I->S binding for C14: validates runs of the real op-heads code (real     *)
 (* threads scheduled step by step, see harness opheads.rs) against the      *)
 (* actions of OpHeads and evaluates the C14 invariants in every state.      *)
-(* One TLC run judges many cases; a "reset" event starts a new case.  A     *)
-(* step that no action of the specification explains is reported            *)
-(* (<<"BAD", l, "NoMatchingAction">>) and the rest of that case is skipped. *)
+(* One TLC run judges many cases; a "reset" event starts a new case.        *)
+(*                                                                          *)
+(* Contracts judge, transcriptions explain: a step that no action of the    *)
+(* specification explains is NOT a violation by itself (a refactoring may   *)
+(* read the directory once more, or remove files in another order).  It is  *)
+(* reported as divergence (<<"DIVERGES", l>>), the process is from then on   *)
+(* "free": its logged effects on the directory are applied as they are, and *)
+(* the invariants keep being evaluated on the real directory contents after *)
+(* every step.  Only an invariant failure (or a process that failed, a      *)
+(* deadlock, a case that did not complete) is a violation.                  *)
 EXTENDS OpHeads, Json, IOUtils, TLC
 
 Rec == ndJsonDeserialize(IOEnv.TRACE)
 
-VARIABLES l, ok
-tvars == <<vars, l, ok>>
+VARIABLES l, ok, free
+tvars == <<vars, l, ok, free>>
 
 ToSet(s) == {s[i] : i \in 1..Len(s)}
 StepEvents == {"read", "lock", "add", "remove", "unlock", "crash"}
 
 Match(e) ==
-  /\ e.p \in AllProcs
-  /\ (e.p = Final => Quiet)
+  /\ e.p \in AllProcs /\ e.p \notin free
   /\ \/ e.a = "read" /\ (Read1(e.p) \/ Read2(e.p))
      \/ e.a = "lock" /\ (RLock(e.p) \/ PLock(e.p))
      \/ e.a = "add" /\ (RAdd(e.p, e.op) \/ PAdd(e.p, e.op)) /\ ops'[e.op] = ToSet(e.parents)
@@ -26,15 +32,25 @@ Match(e) ==
      \/ e.a = "crash" /\ Crash(e.p)
   /\ heads' = ToSet(e.heads)            \* the real directory listing after the step
 
+(* the logged effect of a step of a free process, applied as it is *)
+Apply(e) ==
+  /\ heads' = ToSet(e.heads)
+  /\ IF e.a = "add" /\ e.op >= 0
+     THEN /\ ops' = [x \in DOMAIN ops \cup {e.op} |-> IF x = e.op /\ x \notin DOMAIN ops THEN ToSet(e.parents) ELSE ops[x]]
+          /\ published' = published \cup {e.op}
+     ELSE UNCHANGED <<ops, published>>
+  /\ pc' = [pc EXCEPT ![e.p] = IF e.a = "crash" THEN "crashed" ELSE "free"]
+  /\ lock' = IF lock = e.p /\ e.a \in {"unlock", "crash"} THEN NoProc ELSE lock
+  /\ UNCHANGED <<base, new, mpar, rm, cmds, crashes>>
+
+(* C14 on the real directory contents (FinalOK is judged at the "end" event) *)
 FirstBroken ==
   IF ~NonEmptyHeads THEN "NonEmptyHeads"
-  ELSE IF ~PublishedReachable THEN "PublishedReachable"
   ELSE IF ~HeadsExist THEN "HeadsExist"
-  ELSE IF ~NoFailure THEN "NoFailure"
-  ELSE IF ~FinalOK THEN "FinalOK"
+  ELSE IF ~PublishedReachable THEN "PublishedReachable"
   ELSE "ok"
 
-TInit == Init /\ l = 1 /\ ok = FALSE
+TInit == Init /\ l = 1 /\ ok = FALSE /\ free = {}
 
 Reset ==
   /\ l <= Len(Rec) /\ Rec[l].a = "reset"
@@ -49,43 +65,56 @@ Reset ==
   /\ rm' = [p \in AllProcs |-> {}]
   /\ cmds' = [p \in AllProcs |-> 0]
   /\ crashes' = 0
-  /\ ok' = TRUE /\ l' = l + 1
+  /\ ok' = TRUE /\ l' = l + 1 /\ free' = {}
 
 TStep ==
   /\ ok /\ l <= Len(Rec) /\ Rec[l].a \in StepEvents
   /\ Match(Rec[l])
   /\ (IF FirstBroken' = "ok" THEN TRUE ELSE PrintT(<<"BAD", l, FirstBroken'>>))
-  /\ ok' = TRUE /\ l' = l + 1
+  /\ ok' = TRUE /\ l' = l + 1 /\ UNCHANGED free
 
-Mismatch ==
+(* a step the specification's actions do not explain: divergence, not a violation *)
+Unmodelled ==
   /\ ok /\ l <= Len(Rec) /\ Rec[l].a \in StepEvents
   /\ ~ENABLED Match(Rec[l])
-  /\ PrintT(<<"BAD", l, "NoMatchingAction">>)
-  /\ ok' = FALSE /\ l' = l + 1 /\ UNCHANGED vars
+  /\ (IF Rec[l].p \in free THEN TRUE ELSE PrintT(<<"DIVERGES", l>>))
+  /\ Apply(Rec[l])
+  /\ (IF FirstBroken' = "ok" THEN TRUE ELSE PrintT(<<"BAD", l, FirstBroken'>>))
+  /\ free' = free \cup {Rec[l].p}
+  /\ ok' = TRUE /\ l' = l + 1
 
-(* harness-level anomalies are violations too *)
+(* a process failed (e.g. "Corrupt repository: no head operation") or nobody *)
+(* can move: violations                                                     *)
 Anomaly ==
-  /\ ok /\ l <= Len(Rec) /\ Rec[l].a \in {"failed", "deadlock", "infeasible"}
-  /\ PrintT(<<"BAD", l, IF Rec[l].a = "failed" THEN "ProcessFailed"
-                        ELSE IF Rec[l].a = "deadlock" THEN "Deadlock" ELSE "ScheduleInfeasible">>)
-  /\ ok' = FALSE /\ l' = l + 1 /\ UNCHANGED vars
+  /\ ok /\ l <= Len(Rec) /\ Rec[l].a \in {"failed", "deadlock"}
+  /\ PrintT(<<"BAD", l, IF Rec[l].a = "failed" THEN "ProcessFailed" ELSE "Deadlock">>)
+  /\ ok' = FALSE /\ l' = l + 1 /\ UNCHANGED <<vars, free>>
 
-(* end of a case: the final loader must have finished and FinalOK holds *)
+(* the schedule named a process that could not move: the code takes a       *)
+(* different number of steps than the model - divergence, not a violation   *)
+Infeasible ==
+  /\ ok /\ l <= Len(Rec) /\ Rec[l].a = "infeasible"
+  /\ PrintT(<<"DIVERGES", l>>)
+  /\ l' = l + 1 /\ UNCHANGED <<vars, ok, free>>
+
+(* end of a case: once activity stopped and the repository was loaded there  *)
+(* is a single head that descends from every published operation            *)
 End ==
   /\ ok /\ l <= Len(Rec) /\ Rec[l].a = "end"
-  /\ (IF pc[Final] = "done" /\ Rec[l].final_ok /\ (\A p \in Procs : pc[p] \in {"done", "crashed"})
-      THEN TRUE ELSE PrintT(<<"BAD", l, "CaseDidNotComplete">>))
-  /\ l' = l + 1 /\ UNCHANGED <<vars, ok>>
+  /\ (IF Rec[l].final_ok /\ Cardinality(heads) = 1
+         /\ (\A o \in published : \A h \in heads : IsAnc(ops, o, h))
+      THEN TRUE ELSE PrintT(<<"BAD", l, "FinalOK">>))
+  /\ l' = l + 1 /\ UNCHANGED <<vars, ok, free>>
 
 Skip ==
   /\ ~ok /\ l <= Len(Rec) /\ Rec[l].a # "reset"
-  /\ l' = l + 1 /\ UNCHANGED <<vars, ok>>
+  /\ l' = l + 1 /\ UNCHANGED <<vars, ok, free>>
 
 Finish ==
   /\ l = Len(Rec) + 1
   /\ PrintT(<<"JUDGED", Len(Rec)>>)
-  /\ l' = l + 1 /\ UNCHANGED <<vars, ok>>
+  /\ l' = l + 1 /\ UNCHANGED <<vars, ok, free>>
 
-TNext == Reset \/ TStep \/ Mismatch \/ Anomaly \/ End \/ Skip \/ Finish
+TNext == Reset \/ TStep \/ Unmodelled \/ Anomaly \/ Infeasible \/ End \/ Skip \/ Finish
 TSpec == TInit /\ [][TNext]_tvars
 =============================================================================
